@@ -23,6 +23,8 @@ pub const K_OK: u32 = 0;
 pub const K_ERR: u32 = 1;
 pub const K_ITEM: u32 = 2;
 pub const K_UPERR: u32 = 3;
+/// stands for a zero-sized output that cannot carry an identity
+pub const K_ANON: u32 = 4;
 
 impl Drop for Tok {
     fn drop(&mut self) {
@@ -192,6 +194,7 @@ pub struct World {
     pub inexact_iter: bool,
     /// merge sources report honest size hints instead of the default (0, None)
     pub src_hints: bool,
+    pub src_promise: bool,
     /// ordered adapter: pulled-but-not-yielded is also checked at the moment of each pull
     pub ordered_adapter: bool,
     pub adapter_yielded: u64,
@@ -278,6 +281,7 @@ impl World {
             child_panics: 0,
             inexact_iter: false,
             src_hints: false,
+            src_promise: false,
             ordered_adapter: false,
             adapter_yielded: 0,
             zst_created: 0,
@@ -293,7 +297,10 @@ impl World {
     }
 
     pub fn violate(&mut self, prop: &str, oracle: &str, detail: String) {
-        if self.violations.len() < 32 {
+        // at most two entries per (property, oracle) so that one noisy oracle cannot crowd out
+        // the others
+        let same = self.violations.iter().filter(|v| v.property == prop && v.oracle == oracle).count();
+        if same < 2 && self.violations.len() < 64 {
             let op_index = self.op_index;
             self.violations.push(Violation {
                 property: prop.to_string(),
